@@ -313,8 +313,18 @@ func allFit(bits int, m *big.Int, op string, kind string, a, b *big.Int) bool {
 		}
 		return fitsS(t, bits)
 	case "round":
+		// judged whenever the EXACT result (nearest whole number, halves away from zero) is representable - no margin:
+		// operands within half a unit of the limits that round toward zero are in-hypothesis
+		// (C03.rounding_exact_whenever_representable, round_toward_zero_needs_no_margin)
 		t := mulB(tq(a, m), m)
-		return fitsS(new(big.Int).Add(t, m), bits) && fitsS(new(big.Int).Sub(t, m), bits)
+		rem := new(big.Int).Sub(a, t)
+		half := tq(m, bi(2))
+		if rem.Cmp(half) >= 0 {
+			t.Add(t, m)
+		} else if rem.Cmp(new(big.Int).Neg(half)) <= 0 {
+			t.Sub(t, m)
+		}
+		return fitsS(t, bits)
 	case "inc":
 		return fitsS(new(big.Int).Add(a, m), bits)
 	case "dec":
